@@ -1,6 +1,9 @@
 package props
 
-import "os"
+import (
+	netmail "net/mail"
+	"os"
+)
 
 func osReadDir(dir string) ([]string, error) {
 	es, err := os.ReadDir(dir)
@@ -15,3 +18,6 @@ func osReadDir(dir string) ([]string, error) {
 }
 
 func osReadFile(p string) ([]byte, error) { return os.ReadFile(p) }
+
+// mailAddr aliases net/mail.Address for helper signatures.
+type mailAddr = netmail.Address
